@@ -554,8 +554,12 @@ def run_harness(ctx, specs):
     path = os.path.join(common.BUILD, f"pipe-{ctx.prop}.cases")
     open(path, "w").write("".join(s + "\n" for s in specs))
     cases, first, stderr = [], 0, b""
+    import shutil
+    tmpdir = f"/tmp/verif-pipe-{os.getpid()}-{ctx.prop}"
+    env = dict(os.environ)
+    env["VERIF_PIPE_DIR"] = tmpdir
     while first < len(specs):
-        p = subprocess.run([ctx.harness_bin("harness"), "pipe", path, str(first)], stdin=subprocess.DEVNULL,
+        p = subprocess.run([ctx.harness_bin("harness"), "pipe", path, str(first)], stdin=subprocess.DEVNULL, env=env,
                            stdout=subprocess.PIPE, stderr=subprocess.PIPE, timeout=3600, start_new_session=True)
         stderr += p.stderr[-2000:]
         got = parse(p.stdout.decode(errors="replace"))
@@ -573,10 +577,7 @@ def run_harness(ctx, specs):
             first = last["index"] + 1
         else:
             break
-    import glob
-    import shutil
-    for d in glob.glob("/tmp/verif-pipe-*"):
-        shutil.rmtree(d, ignore_errors=True)
+    shutil.rmtree(tmpdir, ignore_errors=True)
     return cases, stderr
 
 
